@@ -1039,8 +1039,21 @@ class MementoFunctionHashRule(HashRule):
                 # concatenated to form the version of the dependent function, and the
                 # free-text versions of two dependencies could be split another way
                 # ("1", "12" / "11", "2")
-                return hashlib.sha256(explicit_version.encode("utf-8")).hexdigest()[0:16]
-            return memento_fn.code_hash
+                result = hashlib.sha256(explicit_version.encode("utf-8")).hexdigest()[0:16]
+            else:
+                result = memento_fn.code_hash
+            partial_args = getattr(memento_fn, "partial_args", None)
+            partial_kwargs = getattr(memento_fn, "partial_kwargs", None)
+            if partial_args or partial_kwargs:
+                # A modifier clone that binds arguments (P = g.partial(3)) is a value of the
+                # program like any variable: what it binds is part of what the code does
+                bound = _stable_repr(list(partial_args or ())) + _stable_repr(
+                    dict(partial_kwargs or {})
+                )
+                result = hashlib.sha256(
+                    (str(result) + bound).encode("utf-8")
+                ).hexdigest()[0:16]
+            return result
 
         rules = [self] + self.alternates
         if all(r.memento_fn is self.memento_fn for r in rules):
